@@ -45,6 +45,15 @@ def gen(rng):
     locs = [t for t in TG.trash_locations(L) if t[2]]
     for i in range(rng.choice([0, 0, 1, 2])):
         TG.add_malformed(rng, steps, rng.choice(locs)[0], rng.choice(['nodate', 'baddate', 'nopayload', 'orphan', 'nonsuffix', 'empty', 'nopath']), str(i))
+    if made and rng.random() < 0.08:
+        # two trashed entries that are hard links of one file (ln a b; trash-put a b - rename keeps the link count): two
+        # entries, two payloads, two announcements
+        tdir_, nm_, loc_, d_ = rng.choice(made)
+        src_ = tdir_ + '/files/' + nm_
+        if any(s_[0] == 'f' and s_[1] == src_ for s_ in steps) and len(nm_.encode('utf-8', 'surrogateescape')) < 200:
+            steps.append(['h', tdir_ + '/files/' + nm_ + '.hl', src_])
+            pv_ = [s_ for s_ in steps if s_[1] == tdir_ + '/info/' + nm_ + '.trashinfo'][0][2]
+            steps.append(['f', tdir_ + '/info/' + nm_ + '.hl.trashinfo', pv_.replace('\nDeletionDate', '.hl\nDeletionDate', 1), 0o600])
     extra = L['home'] + '/othertrash'
     if rng.random() < 0.3:
         G.add_trashed(steps, extra, 'x1', TG.pct(L['home'] + '/w/x1'), '2019-05-05T05:05:05', 'file', tag='x')
